@@ -18,9 +18,11 @@ For element writes the enclosing `for` loop is matched against the fixed-cell sk
   ifNotFixed   : the write sits in the then-branch of `if (!circuit.isFixed(IDX))` (same conditions).
 
 A `Circuit` data member handed to the constructor of a local object is accepted only when the class is a
-scoped flag guard (one `bool &` field bound to the argument, constructor body `flag_ = true;`, destructor
-body `flag_ = false;`, nothing else — `InUseGuard` in src/coloquinte.cpp) and the object is an automatic
-variable declared directly in the function body: site kind `scoped` (set on entry, cleared on every exit).
+scoped flag guard of one of exactly two shapes (`InUseGuard` in src/coloquinte.cpp; see `flag_guard`):
+set/clear — one `bool &` field bound to the argument, constructor body `flag_ = true;`, destructor body
+`flag_ = false;` (site kind `scoped`) — or save/set/restore — additionally one `const bool` field initialised
+from the flag, destructor body `flag_ = previous_;` (site kind `scopedRestore`); nothing else in the class, and
+the object is an automatic variable declared directly in the function body (its destructor runs on every exit).
 
 The closure argument: a non-const `Circuit` reaches code outside the analysed functions only through a
 hand-over (table `handOvers`, all to analysed functions) or a non-const `Circuit` method call (a write
@@ -369,7 +371,13 @@ class FileScan:
                 self.escapes.append({"file": relf, "function": qn, "line": line, "what": what})
 
     def flag_guard(self, cls, where):
-        """Check that class `cls` is a scoped flag guard; returns None or raises."""
+        """Check that class `cls` is a scoped flag guard of one of exactly two shapes; returns the shape or raises.
+          "scoped"        one field `bool &flag_` bound to the constructor argument; ctor body `flag_ = true;`,
+                          dtor body `flag_ = false;`                                                    (set / clear)
+          "scopedRestore" that field plus one `const bool previous_` initialised from the flag (the argument, or the
+                          reference field when it is declared first); ctor body `flag_ = true;`, dtor body
+                          `flag_ = previous_;`                                                   (save / set / restore)
+        No base class, no other member, copy operations deleted or absent."""
         def bad(why):
             raise T.TranslateError("%s: object of class %s built from a Circuit member, but %s" % (where, cls, why))
         decl = None
@@ -382,11 +390,23 @@ class FileScan:
         if any(c.get("kind") == "CXXBaseSpecifier" for c in kids(decl)) or decl.get("bases"):
             bad("it has base classes")
         fields = [c for c in kids(decl) if c.get("kind") == "FieldDecl"]
-        if len(fields) != 1 or qual(fields[0]) != "bool &":
-            bad("it does not have exactly one field of type bool &")
-        fid = fields[0]["id"]
+        refs = [f for f in fields if qual(f) == "bool &"]
+        saves = [f for f in fields if qual(f) == "const bool"]
+        if len(refs) != 1 or len(refs) + len(saves) != len(fields) or len(saves) > 1:
+            bad("its fields are not one `bool &` (plus at most one `const bool`)")
+        if any(f.get("mutable") for f in fields):
+            bad("it has a mutable field")
+        fid = refs[0]["id"]
+        sid = saves[0]["id"] if saves else None
+        shape = "scopedRestore" if saves else "scoped"
+        ref_first = fields[0]["id"] == fid
 
-        def sets_flag(body, value):
+        def this_member(e, want):
+            e = strip(e)
+            return e.get("kind") == "MemberExpr" and e.get("referencedMemberDecl") == want and \
+                strip(kids(e)[0]).get("kind") == "CXXThisExpr"
+
+        def assigns_flag(body, rhs_ok):
             st = kids(body)
             if len(st) != 1:
                 return False
@@ -394,9 +414,14 @@ class FileScan:
             if b.get("kind") != "BinaryOperator" or b.get("opcode") != "=":
                 return False
             l, r = kids(b)
-            l, r = strip(l), strip(r)
-            return l.get("kind") == "MemberExpr" and l.get("referencedMemberDecl") == fid and \
-                strip(kids(l)[0]).get("kind") == "CXXThisExpr" and r.get("kind") == "CXXBoolLiteralExpr" and r.get("value") is value
+            return this_member(l, fid) and rhs_ok(r)
+
+        def literal(value):
+            return lambda r: strip(r).get("kind") == "CXXBoolLiteralExpr" and strip(r).get("value") is value
+
+        def loads_saved(r):
+            # strip() looks through the LValueToRValue cast as well
+            return sid is not None and this_member(r, sid)
         ctors = dtors = 0
         for c in kids(decl):
             k = c.get("kind")
@@ -408,24 +433,36 @@ class FileScan:
             if k == "CXXConstructorDecl":
                 ps = [x for x in kids(c) if x.get("kind") == "ParmVarDecl"]
                 inits = [x for x in kids(c) if x.get("kind") == "CXXCtorInitializer"]
-                if len(ps) != 1 or qual(ps[0]) != "bool &" or len(inits) != 1 or len(body) != 1:
-                    bad("its constructor is not (bool &) with one initializer")
-                ini = inits[0]
-                src = strip(kids(ini)[0]) if kids(ini) else {}
-                if (ini.get("anyInit") or {}).get("id") != fid or src.get("kind") != "DeclRefExpr" or \
-                        (src.get("referencedDecl") or {}).get("id") != ps[0]["id"]:
-                    bad("its constructor does not bind the field to the argument")
-                if not sets_flag(body[0], True):
+                if len(ps) != 1 or qual(ps[0]) != "bool &" or len(inits) != len(fields) or len(body) != 1:
+                    bad("its constructor is not (bool &) with one initializer per field")
+                seen = set()
+                for ini in inits:
+                    tgt = (ini.get("anyInit") or {}).get("id")
+                    src = strip(kids(ini)[0]) if kids(ini) else {}
+                    from_arg = src.get("kind") == "DeclRefExpr" and (src.get("referencedDecl") or {}).get("id") == ps[0]["id"]
+                    if tgt == fid:
+                        if not from_arg:
+                            bad("its constructor does not bind the reference field to the argument")
+                    elif tgt == sid and sid is not None:
+                        if not (from_arg or (ref_first and this_member(src, fid))):
+                            bad("its constructor does not initialise the saved value from the flag")
+                    else:
+                        bad("its constructor initialises something else")
+                    seen.add(tgt)
+                if len(seen) != len(fields):
+                    bad("its constructor does not initialise every field exactly once")
+                if not assigns_flag(body[0], literal(True)):
                     bad("its constructor body is not `flag = true;`")
                 ctors += 1
             elif k == "CXXDestructorDecl":
-                if len(body) != 1 or not sets_flag(body[0], False):
-                    bad("its destructor body is not `flag = false;`")
+                if len(body) != 1 or not assigns_flag(body[0], loads_saved if saves else literal(False)):
+                    bad("its destructor body is not `flag = %s;`" % ("saved value" if saves else "false"))
                 dtors += 1
             else:
                 bad("it has another member (%s %s)" % (k, c.get("name")))
         if ctors != 1 or dtors != 1:
             bad("it does not have exactly one constructor and one destructor")
+        return shape
 
     def method_class(self):
         """id of a member function declaration -> name of its class"""
@@ -566,12 +603,12 @@ class FileScan:
             return
         if pk == "CXXConstructExpr":
             cls = re.sub(r"^(const )?(coloquinte::)?(\(anonymous namespace\)::)?", "", qual(p))
-            self.flag_guard(cls, "%s:%d: %s" % (relf, self.line_of(m, stack), fn))
+            shape = self.flag_guard(cls, "%s:%d: %s" % (relf, self.line_of(m, stack), fn))
             var, dst, comp, fun = (up[pi + 1:pi + 5] + [{}] * 4)[:4]
             if var.get("kind") != "VarDecl" or var.get("storageClass") or dst.get("kind") != "DeclStmt" or \
                     comp.get("kind") != "CompoundStmt" or fun is not stack[0] or len(kids(p)) != 1:
                 unknown("flag guard that is not an automatic variable declared directly in the function body")
-            self.add_site(stack, fn, relf, name, "scoped", "none", p)
+            self.add_site(stack, fn, relf, name, shape, "none", p)
             self.sites[-1]["via"] = cls
             return
         if pk == "CXXOperatorCallExpr":
@@ -737,7 +774,8 @@ def generate():
     L.append("deriving Repr, DecidableEq")
     L.append("")
     L.append("inductive Kind where")
-    L.append("  | element | whole | call | scoped")
+    L.append("  /-- `scoped`: flag guard that sets on entry and clears on exit; `scopedRestore`: saves, sets, restores -/")
+    L.append("  | element | whole | call | scoped | scopedRestore")
     L.append("deriving Repr, DecidableEq")
     L.append("")
     L.append("/-- how the write is protected against fixed cells (see tools/gen/WriteSets.py) -/")
